@@ -1711,14 +1711,14 @@ _g_ir_node_build_typelib (GIrNode         *node,
             int index = get_index_of_member_type ((GIrNodeInterface*)parent,
                                                   G_IR_NODE_PROPERTY,
                                                   function->property);
-            if (index == -1)
+            /* the property may be absent from the typelib (not introspectable):
+             * the function is then an ordinary method */
+            if (index != -1)
               {
-                g_error ("Unknown property %s:%s for accessor %s", parent->name, function->property, function->symbol);
+                blob->setter = function->is_setter;
+                blob->getter = function->is_getter;
+                blob->index = (guint) index;
               }
-
-            blob->setter = function->is_setter;
-            blob->getter = function->is_getter;
-            blob->index = (guint) index;
           }
 
         /* function->result is special since it doesn't appear in the serialized format but
